@@ -199,7 +199,7 @@ C13_Head(req, h) ==
 \* C14, header clauses.  t0/t1 bracket the call (seconds).
 C14_Head(req, h, t0, t1) ==
   (MethodOK(req) /\ h.status \in {200, 206, 304, 412, 416}) =>
-     /\ h.ar.k = "val" /\ h.ar.v = [k |-> "txt", s |-> "bytes"]
+     /\ h.ar.k = "val" /\ h.ar.lc = "bytes"
      /\ IF req.ent.etag.k = "tag" THEN h.etag.k = "val" /\ h.etag.v = req.ent.etagv
         ELSE h.etag.k = "none"
      /\ (req.ent.mt.k = "t") =>
@@ -455,7 +455,7 @@ BodyFailures(req, h, bs, toks, drained) ==
       clean == bs.term = "end" /\ honest
       readings == RangeReadings(req.abs.range)
       rdom == C03_Domain(req)
-      blen == IF h.ct.k = "multipart" THEN 1 ELSE 0
+      blen == IF h.ct.k = "multipart" THEN h.ct.blen ELSE 0
       withH == req.abs.ifr.k = "none"
       eh == IF withH THEN [hl |-> req.ent.hl, nh |-> req.ent.nh] ELSE [hl |-> 0, nh |-> 0]
       ptoks == ProjToks(toks, withH)
@@ -595,9 +595,10 @@ ImplHead(req, now) ==
               ELSE full
 
 \* the fields of an observed head that ImplHead predicts
+KV(x) == IF x.k = "val" THEN [k |-> "val", v |-> x.v] ELSE x
 HeadCore(h) == [status |-> h.status, cl |-> h.cl, cr |-> h.cr,
-                ct |-> IF h.ct.k = "multipart" THEN h.ct ELSE None,
-                ar |-> h.ar, etag |-> h.etag, allow |-> h.allow, eh |-> h.eh]
+                ct |-> IF h.ct.k = "multipart" THEN [k |-> "multipart", boundary |-> h.ct.boundary] ELSE None,
+                ar |-> KV(h.ar), etag |-> KV(h.etag), allow |-> h.allow, eh |-> h.eh]
 ImplCore(ih) == [status |-> ih.status, cl |-> ih.cl, cr |-> ih.cr, ct |-> ih.ct,
                  ar |-> ih.ar, etag |-> ih.etag, allow |-> ih.allow, eh |-> ih.eh]
 
